@@ -50,6 +50,10 @@ type caseID struct {
 	// Restore (layer 2): the table is first restored through Engine.Restore from a backup stream
 	// whose final marker carries a leader index, so that its log starts with restore batches.
 	Restore bool `json:"restore,omitempty"`
+	// layer 3: value of --replication.max-send-message-size-bytes ("" = flag not given) and of
+	// --replication.log-cache-size the real binary is started with.
+	Flag     string `json:"max_send_message_size_flag,omitempty"`
+	LogCache int    `json:"log_cache_size,omitempty"`
 }
 
 type witness struct {
